@@ -4,6 +4,11 @@
 
 package tinycpm
 
+// The fields the contracts speak about (others are unmodelled: arbitrary at
+// entry, never frame-checked).
+//@ fields Memory buf
+//@ fields IO stdout warnl
+
 // The 64 KiB array memory refines the Memory interface contract (plain byte
 // store, total): no bounds failure is possible for any address.
 
